@@ -82,23 +82,25 @@ Definition f_of_small_int (mw ew s n : Z) : Z :=
 
 Inductive rounding := RCeil | RFloor | RTrunc | RNearest.
 
-(* integral roundings. NaN -> canonical NaN; infinities, zeros and values with e >= 0 are already integral *)
+(* the magnitude of the integral rounding of m / 2^d (d > 0) for a value of sign s (0 or 1) *)
+Definition f_round_int (r : rounding) (s m d : Z) : Z :=
+  let q := m / 2 ^ d in let rem := m mod 2 ^ d in let half := 2 ^ (d - 1) in
+  let up := if rem =? 0 then q else q + 1 in
+  match r with
+  | RTrunc => q
+  | RFloor => if s =? 0 then q else up
+  | RCeil => if s =? 0 then up else q
+  | RNearest => if rem <? half then q else if half <? rem then q + 1 else if Z.even q then q else q + 1
+  end.
+
+(* integral roundings. NaN -> canonical NaN; infinities and values with e >= 0 are already integral; the sign is kept (so -0.5 -> -0) *)
 Definition f_round (r : rounding) (mw ew x : Z) : Z :=
   if f_nan mw ew x then f_canon mw ew
   else if f_inf mw ew x then x
   else
-    let m := f_m mw ew x in let e := f_e mw ew x in let s := f_sign mw ew x in
+    let e := f_e mw ew x in
     if 0 <=? e then x
-    else
-      let q := m / 2 ^ (- e) in let rem := m mod 2 ^ (- e) in let half := 2 ^ (- e - 1) in
-      let up := if rem =? 0 then q else q + 1 in
-      let n := match r with
-               | RTrunc => q
-               | RFloor => if s =? 0 then q else up
-               | RCeil => if s =? 0 then up else q
-               | RNearest => if rem <? half then q else if half <? rem then q + 1 else if Z.even q then q else q + 1
-               end in
-      f_of_small_int mw ew s n.
+    else f_of_small_int mw ew (f_sign mw ew x) (f_round_int r (f_sign mw ew x) (f_m mw ew x) (- e)).
 
 (* float -> integer truncations. None = trap; the kind is given by f_trunc_trap *)
 Definition f_to_int (signed : bool) (mw ew N x : Z) : option Z :=
